@@ -15,7 +15,7 @@ FACTS_FOR = {
     "C10": ["replicaWriteCounter", "increaseRevisionCounter", "getRevisionCounter", "guard_Replica_SetRevisionCounter", "verifyOrder"],
     "C11": ["cleanerActionLoop", "cleanerPreconditions", "cleanerConds", "cleanerSlices", "removeIndexShifts", "removeIndexBody", "removeIndexSnapIndx",
             "guard_Replica_PrepareRemoveDisk", "guard_Replica_RemoveDiffDisk"],
-    "C12": ["order_RemoveDiffDisk", "order_ReplaceDisk", "createDiskDupGuard", "chainTooLong", "liveChainTooLong", "guard_Replica_RemoveDiffDisk", "guard_Replica_PrepareRemoveDisk"],
+    "C12": ["order_RemoveDiffDisk", "order_ReplaceDisk", "createDiskDupGuard", "chainTooLong", "liveChainTooLong", "guard_Replica_RemoveDiffDisk", "guard_Replica_PrepareRemoveDisk", "removeDiskNodeTail"],
     "C13": ["locks_Snapshot", "locks_RemoveReplica", "locks_Revert", "snapshotRefusal", "checkpointCond", "checkpointBody", "removeReplicaTail"],
     "C14": ["actionsGated", "checkAction", "replicaActions", "routedActions", "verifyChainGuard", "verifySlices"],
     "C15": ["wireWrite", "wireRead", "wireMagicCheck"],
@@ -27,7 +27,7 @@ FACTS_FOR = {
             "guard_Server_RemoveDiffDisk", "guard_Server_ReplaceDisk", "guard_Server_PrepareRemoveDisk", "guard_Server_Revert",
             "guard_Server_SetReplicaMode", "guard_Server_SetRevisionCounter", "guard_Server_SetCheckpoint", "guard_Server_Reload"],
     "C08": ["order_RemoveDiffDisk", "order_ReplaceDisk", "createDiskVolMetaFailure", "revertDiskVolMetaFailure"],
-    "C19": ["startOneOrder", "cloneReplicaOrder", "appCloneOrder", "cloneStatusOrder", "cloneStatusLoop", "updateCloneInfo"],
+    "C19": ["startOneOrder", "cloneReplicaOrder", "appCloneOrder", "cloneStatusOrder", "cloneStatusLoop", "updateCloneInfo", "cloneRestartCond"],
     "C18": ["locks_addReplica", "locks_RemoveReplica", "locks_SetReplicaMode", "locks_Start", "startOverRF", "startGuardBeforeReset", "startLoops", "buildReadWriters", "removeBackendTail", "canAdd", "addReplicaNoLockRechecks", "addReplicaOrder", "removeReplicaTail", "volStatusCounts"],
 }
 
